@@ -267,7 +267,7 @@ class Renderer:
             return tg + ' ' + body
         if tg:
             return tg + ' '
-        return body if body else ' '
+        return body if body else 'null'      # an untagged value-less entry cannot be written in flow style
 
     def value(self, n, indent):
         """Text that follows 'key:' or '-' for node n (starts with ' ' or newline)."""
